@@ -1352,6 +1352,122 @@ def audit_campaign(ctx, camp):
     ctx.selftest("other absolute location reaches the generator (auditing output changes with the location)", all(effective.get("location", [False])))
 
 
+
+# ------------------------------------------------------------------------------------------------------------------
+# hidden inputs: environment variables the tool's own sources read
+# ------------------------------------------------------------------------------------------------------------------
+_RE_ENVREAD = re.compile(r"""(?:\benviron\s*(?:\.\s*get\s*\(|\[)|\bgetenv\s*\()\s*['"]([A-Za-z_][A-Za-z0-9_]*)['"]""")
+_ENV_IGNORED = {"HOME", "PATH", "TZ", "TMPDIR", "TEMP", "TMP", "PYTHONHASHSEED", "LANG", "LC_ALL", "TERM", "NO_COLOR", "COLUMNS", "LINES"}
+_ENV_DEFS = {"eroot/na/A.1.0.dsdl": "uint8 x\nfloat16[<=3] y\n@sealed\n",
+             "eroot/na/B.1.0.dsdl": "eroot.na.A.1.0[<=2] a\nbool b\n\n\n# doc\nuint8 K = 3\n@extent 64 * 8\n",
+             "eroot/U.1.0.dsdl": "@union\neroot.na.A.1.0 a\nuint16 n\n@sealed\n",
+             "eroot/S.1.0.dsdl": "eroot.U.1.0 q\n@sealed\n---\nuint8 r\n@sealed\n"}
+# earlier runs of the history: other whitespace control, other language options, other target
+_ENV_PRE = [["--target-language", "c", "--trim-blocks", "--lstrip-blocks"],
+            ["--target-language", "c", "--enable-serialization-asserts", "--target-endianness", "big", "--omit-float-serialization-support"],
+            ["--target-language", "cpp", "--experimental-languages", "--language-standard", "c++17-pmr"],
+            ["--target-language", "py", "--pp-max-emptylines", "0"]]
+_ENV_FINAL = {"c": ["--target-language", "c"], "cpp": ["--target-language", "cpp", "--experimental-languages"], "py": ["--target-language", "py"]}
+
+
+def env_names_read_by_the_tool():
+    names = {}
+    for f in sorted((REPO / "src" / "nunavut").rglob("*.py")):
+        try:
+            text = f.read_text(encoding="utf-8", errors="replace")
+        except OSError:
+            continue
+        for m in _RE_ENVREAD.finditer(text):
+            if m.group(1) not in _ENV_IGNORED:
+                names.setdefault(m.group(1), str(f.relative_to(REPO)))
+    return names
+
+
+def env_probe(ctx, replay_only=None):
+    """An environment variable that the tool reads is an input nobody lists.  It may legitimately select behaviour (then it is an option: runs that
+    agree on it must agree on the output), but it must not open a channel between runs: for every variable NAME found in the tool's own sources and two
+    kinds of value (a switch `1`, a scratch directory - what a cache or a state file would be given), the run `generate with default options` is executed
+    (a) after a history of four other runs (other whitespace control, other language options, other targets) that had the variable too, and (b) alone, with
+    the variable naming a FRESH directory (the location of a directory is an ambient dimension of C07) resp. the same switch value.  Inputs, options and
+    environment agree, only the history differs: the T-layer's history variable `first` must see identical digests (repro.digest / repro.paths)."""
+    names = env_names_read_by_the_tool()
+    ctx.cov["environment_variables_read_by_the_tool"] = names
+    if not names:
+        return 0
+    base = ctx.scratch / "envprobe"
+    shutil.rmtree(base, ignore_errors=True)
+    for rel, text in _ENV_DEFS.items():
+        (base / "in" / rel).parent.mkdir(parents=True, exist_ok=True)
+        (base / "in" / rel).write_text(text)
+    env0 = dict(os.environ, PYTHONPATH=str(REPO / "src"), PYTHONDONTWRITEBYTECODE="1", PYTHONHASHSEED="0")
+
+    def nnvg(args, out, env):
+        p = subprocess.run([sys.executable, "-m", "nunavut"] + args + ["-O", str(out), str(base / "in" / "eroot")], cwd=str(base), env=env,
+                           capture_output=True, text=True, timeout=600)
+        return {"rc": p.returncode, "files": digest_files(out) if p.returncode == 0 and os.path.isdir(out) else {}, "order": [], "err": p.stderr[-300:]}
+
+    def digest_files(out):
+        res = {}
+        for b, _d, files in os.walk(out):
+            for f in files:
+                q = os.path.join(b, f)
+                with open(q, "rb") as fh:
+                    res[os.path.relpath(q, out).replace(os.sep, "/")] = hashlib.sha256(fh.read()).hexdigest()
+        return res
+
+    class _Id:
+        def __init__(self, i, lang="c"):
+            self.id, self.audit, self.lang = i, False, lang
+
+    jobs = []
+    for vi, var in enumerate(sorted(names)[:8]):
+        for ki, kind in enumerate(("dir", "switch")):
+            for li, lang in enumerate(("c", "cpp", "py")):
+                jobs.append((var, kind, lang, 970000 + 100 * vi + 10 * ki + li))
+    if replay_only:
+        jobs = [j for j in jobs if [j[0], j[1], j[2]] == replay_only]
+
+    def one(job):
+        var, kind, lang, oid = job
+        d = base / ("%s-%s-%s" % (var, kind, lang))
+        va = str(d / "stateA") if kind == "dir" else "1"
+        vb = str(d / "stateB") if kind == "dir" else "1"
+        env_a, env_b = dict(env0, **{var: va}), dict(env0, **{var: vb})
+        pre = [nnvg(a, d / ("pre%d" % i), env_a)["rc"] for i, a in enumerate(_ENV_PRE)]
+        after = nnvg(_ENV_FINAL[lang], d / "outA", env_a)
+        alone = nnvg(_ENV_FINAL[lang], d / "outB", env_b)
+        return job, pre, after, alone
+
+    with concurrent.futures.ThreadPoolExecutor(max_workers=NCPU) as ex:
+        results = list(ex.map(one, jobs))
+    records, meta = [], {}
+    for k, (job, pre, after, alone) in enumerate(results):
+        var, kind, lang, oid = job
+        if after["rc"] != 0 or alone["rc"] != 0:
+            ctx.not_exercised("environment probe %s=%s (%s): a run failed (%s)" % (var, kind, lang, (after["err"] or alone["err"])[-120:]))
+            continue
+        ctx.count(2 + len(_ENV_PRE))
+        ctx.distinct("env|%s|%s|%s" % (var, kind, lang))
+        for j, res in enumerate((alone, after)):
+            rid = 9700000 + 10 * k + j
+            records.append(make_record(rid, _Id(970000), _Id(oid, lang), {"env": var, "value": kind, "hist": "none" if j == 0 else "prior"}, res))
+            meta[rid] = (job, pre, j)
+    if not records:
+        return 0
+    rej = validate(ctx, records)
+    for rid, clause in rej.items():
+        job, pre, j = meta[rid]
+        var, kind, lang, _ = job
+        if clause.startswith("drift"):
+            continue
+        ctx.violation("C07|%s|%s|environment-variable-history" % (clause, lang),
+                      "with the environment variable %s (read in %s) set to a %s, `nnvg %s` gives other files after a history of %d other runs with the same "
+                      "variable than alone: the variable opens a channel between runs" % (var, names[var], "scratch directory" if kind == "dir" else "switch value 1",
+                                                                                       " ".join(_ENV_FINAL[lang]), len(pre)),
+                      {"mode": "envprobe", "job": [var, kind, lang], "pre_rc": pre})
+    return len(records)
+
+
 def _phase(ctx, what):
     import time
     print("C07 [%6.1fs] %s" % (time.time() - ctx.t0, what))
@@ -1387,6 +1503,8 @@ def run(ctx):
     ctx.cov["tree_digest"] = tree[:16]
     rejects = camp.judge()
     _phase(ctx, "trace validated: %d records, %d rejected" % (len(camp.records), len(rejects)))
+    nenv = env_probe(ctx)
+    _phase(ctx, "environment-variable probe: %d records" % nenv)
 
     # binding self-tests: a reference record against a copy of itself is accepted; with one recorded field corrupted the T-layer
     # must reject exactly that record with the right clause
@@ -1478,6 +1596,9 @@ def run(ctx):
 
 
 def replay(ctx, case):
+    if case.get("mode") == "envprobe":
+        env_probe(ctx, replay_only=list(case["job"]))
+        return
     camp = Campaign(ctx)
     i = Inputs.from_json(1, case["inputs"])
     camp.inputs[1] = i
